@@ -12,7 +12,8 @@ groups per block, any order of group types, dense and plain nodes mixed):
   selects a subset of the types (same read_meta) succeeds with exactly `os.filter (selected r')`.
 
 What the code does NOT do is validate a skipped group: the read with the narrower mask can succeed
-where the wider one throws (`skipped_field_not_validated`), never the other way round.  Core-only.
+where the wider one throws (`groupField_skipped`; Props/C05.lean `pbf_skipped_group_not_validated`), never the
+other way round.  Core-only.
 -/
 import Osmium.Lemmas.HostilePbfObj
 
@@ -235,7 +236,7 @@ theorem groupField_mask (p : Params) {r' r : ROpts} (hR : Restricts r' r) (f : F
   dsimp only at h ⊢
   split
   · -- Node
-    dsimp only at h
+    simp only [] at h
     rw [decodeNode_meta p hR.readMeta]
     cases hn' : r'.nodes with
     | false =>
@@ -254,7 +255,7 @@ theorem groupField_mask (p : Params) {r' r : ROpts} (hR : Restricts r' r) (f : F
       have := withFields_node p r _ o ho
       exact ⟨o, ho, (filter_nodes_of_selected r' hn' [o] (by simpa using this)).symm⟩
   · -- DenseNodes
-    dsimp only at h
+    simp only [] at h
     rw [decodeDense_meta p hR.readMeta]
     cases hn' : r'.nodes with
     | false =>
@@ -271,7 +272,7 @@ theorem groupField_mask (p : Params) {r' r : ROpts} (hR : Restricts r' r) (f : F
       obtain ⟨fs, _, hd⟩ := withFields_some _ _ _ h
       rw [h, filter_nodes_of_selected r' hn' new (decodeDense_nodes p r fs new hd)]
   · -- Way
-    dsimp only at h
+    simp only [] at h
     rw [decodeWay_meta p hR.readMeta]
     cases hn' : r'.ways with
     | false =>
@@ -292,7 +293,7 @@ theorem groupField_mask (p : Params) {r' r : ROpts} (hR : Restricts r' r) (f : F
       obtain ⟨m, ns, rfl⟩ := decodeWay_way p r fs o hd
       exact ⟨_, ho, by simp [selected, hn']⟩
   · -- Relation
-    dsimp only at h
+    simp only [] at h
     rw [decodeRelation_meta p hR.readMeta]
     cases hn' : r'.relations with
     | false =>
@@ -313,8 +314,13 @@ theorem groupField_mask (p : Params) {r' r : ROpts} (hR : Restricts r' r) (f : F
       obtain ⟨m, ms, rfl⟩ := decodeRelation_relation p r fs o hd
       exact ⟨_, ho, by simp [selected, hn']⟩
   · -- default: skip
+    rename_i h1 h2 h3 h4
     split at h
-    all_goals first | (exfalso; rename_i hne _ _; exact hne _ _ rfl rfl; done) | (simp only [Option.some.injEq] at h; subst h; rfl)
+    · exact (h1 rfl rfl).elim
+    · exact (h2 rfl rfl).elim
+    · exact (h3 rfl rfl).elim
+    · exact (h4 rfl rfl).elim
+    · simp only [Option.some.injEq] at h; subst h; rfl
 
 /-- a field whose type is not selected is skipped WITHOUT being looked at: whatever its payload, it
     contributes nothing and raises nothing -/
@@ -330,22 +336,29 @@ theorem groupField_skipped (p : Params) (r : ROpts) (f : Field)
 def Appends {α : Type} (step : List Object → α → Option (List Object)) (contrib : α → Option (List Object)) : Prop :=
   ∀ acc a, step acc a = (contrib a).map fun new => acc ++ new
 
-theorem foldlM_appends {α : Type} {step : List Object → α → Option (List Object)} {contrib : α → Option (List Object)}
-    (hs : Appends step contrib) : ∀ (as : List α) (acc : List Object),
-    as.foldlM step acc = (as.foldlM (fun n a => (contrib a).map fun new => n ++ new) []).map fun new => acc ++ new := by
+theorem foldlM_appends_gen {α : Type} {step : List Object → α → Option (List Object)} {contrib : α → Option (List Object)}
+    (hs : Appends step contrib) : ∀ (as : List α) (acc n0 : List Object),
+    as.foldlM step (acc ++ n0) =
+      (as.foldlM (fun n a => (contrib a).map fun new => n ++ new) n0).map fun new => acc ++ new := by
   intro as
-  induction as using List.reverseRecOn with
-  | nil => intro acc; simp
-  | append_singleton as a ih =>
-    intro acc
-    simp only [List.foldlM_append, List.foldlM_cons, List.foldlM_nil, Option.bind_eq_bind]
-    rw [ih acc]
-    cases h1 : as.foldlM (fun n a => (contrib a).map fun new => n ++ new) [] with
+  induction as with
+  | nil => intro acc n0; simp
+  | cons a as ih =>
+    intro acc n0
+    simp only [List.foldlM_cons, Option.bind_eq_bind]
+    rw [hs]
+    cases contrib a with
     | none => simp
-    | some n =>
-      simp only [Option.map_some, Option.bind_some, Option.bind_fun_some]
-      rw [hs]
-      cases contrib a <;> simp [List.append_assoc]
+    | some new =>
+      simp only [Option.map_some, Option.bind_some]
+      rw [List.append_assoc]
+      exact ih acc (n0 ++ new)
+
+theorem foldlM_appends {α : Type} {step : List Object → α → Option (List Object)} {contrib : α → Option (List Object)}
+    (hs : Appends step contrib) (as : List α) (acc : List Object) :
+    as.foldlM step acc = (as.foldlM (fun n a => (contrib a).map fun new => n ++ new) []).map fun new => acc ++ new := by
+  have := foldlM_appends_gen hs as acc []
+  rwa [List.append_nil] at this
 
 /-- if every element's contribution under the narrow mask is the filtered contribution under the
     wide mask, so is the contribution of the whole list -/
@@ -388,7 +401,9 @@ def blockField (p : Params) (r : ROpts) (f : Field) : Option (List Object) :=
 
 theorem blockDataStep_eq (p : Params) (r : ROpts) (acc : List Object) (f : Field) :
     blockDataStep p r acc f = (blockField p r f).map fun new => acc ++ new := by
+  obtain ⟨tag, wt, val, payload⟩ := f
   unfold blockDataStep blockField
+  dsimp only
   split
   · unfold withFields
     split
@@ -398,13 +413,16 @@ theorem blockDataStep_eq (p : Params) (r : ROpts) (acc : List Object) (f : Field
 
 theorem blockField_mask (p : Params) {r' r : ROpts} (hR : Restricts r' r) (f : Field) (new : List Object)
     (h : blockField p r f = some new) : blockField p r' f = some (new.filter (selected r')) := by
+  obtain ⟨tag, wt, val, payload⟩ := f
   unfold blockField at h ⊢
-  split
+  dsimp only at h ⊢
+  split at h
   · obtain ⟨gs, hg, h⟩ := withFields_some _ _ _ h
     unfold withFields
     rw [hg]
     exact groupContrib_mask p hR gs new h
-  · simp only [Option.some.injEq] at h; subst h; rfl
+  · simp only [Option.some.injEq] at h; subst h
+    rfl
 
 /-! ### block, blob, file -/
 
